@@ -4,4 +4,5 @@ prop=$1; name=$2; tier=${3:-quick}
 cd /verif
 m=""
 while IFS= read -r f; do rel=${f#mutants/$prop/$name/}; m="$m,$rel=/verif/$f"; done < <(find "mutants/$prop/$name" -type f -name '*.go')
-VERIF_MUTANT="${m#,}" ./check "$prop" "$tier"
+# evidence and replays of a mutant run never go to /verif/evidence or /verif/replays
+VERIF_OUT="${VERIF_OUT:-/verif/build/mutantrun/$prop-$name}" VERIF_MUTANT="${m#,}" ./check "$prop" "$tier"
